@@ -277,14 +277,123 @@ def make_task(rng, kind, i, scale, basis=True, const_form=None):
     return {"kind": kind, "op": op, "circ": circ, "shots": shots}
 
 
+def share_str(t):
+    """'@c3' = the circuit OBJECT of task 3, '@o3' its operator object, '@t3' the task object
+    itself, '~t3' an equal but separately built copy of task 3"""
+    sh = t.get("share") or {}
+    return "".join({"circ": "@c", "op": "@o", "task": "@t", "copy": "~t"}[k] + str(sh[k]) for k in ("circ", "op", "task", "copy") if k in sh)
+
+
 def task_str(t):
-    return f"{t['kind'][0].upper()}({op_str(t['op'])},{circ_str(t['circ'])},{t['shots']})"
+    return f"{t['kind'][0].upper()}({op_str(t['op'])},{circ_str(t['circ'])},{t['shots']}){share_str(t)}"
 
 
 def build_task(t, symbols=None):
     from orquestra.quantum.api.estimation import EstimationTask
 
     return EstimationTask(build_op(t["op"]), build_circ(t["circ"], symbols), t["shots"])
+
+
+# ------------------------------------------------------------------ aliasing between the tasks of one list
+ALIAS_MODES = ("circ", "op", "task", "copy", "mixed")
+
+
+def _groups(rng, pool, max_groups):
+    """disjoint groups (>= 2 members each, ascending) drawn from the indices in ``pool``"""
+    pool = list(pool)
+    rng.shuffle(pool)
+    groups = []
+    if len(pool) >= 2 and rng.random() < 0.25:
+        return [sorted(pool)]  # one object for the whole list (parameter scan / one ansatz, many operators)
+    for _ in range(rng.randint(1, max_groups)):
+        if len(pool) < 2:
+            break
+        k = rng.randint(2, min(5, len(pool)))
+        groups.append(sorted(pool[:k]))
+        pool = pool[k:]
+    return groups
+
+
+def alias_specs(rng, specs, mode=None):
+    """Make tasks of one list share pieces, the way real task lists do (one ansatz circuit in
+    many tasks, one Hamiltonian on many circuits, ``[task] * k``, a task entered twice):
+
+        circ : the members of a group hold the SAME circuit object (that of the widest member)
+        op   : ... the same operator object (that of the narrowest member; constant and
+               non-constant operators are never merged, so the task kinds stay what they are)
+        task : ... are one and the same EstimationTask object
+        copy : ... are equal tasks built separately (equal, not identical)
+        mixed: circ and op groups drawn independently (they may overlap), then task / copy groups
+               among the tasks left untouched
+
+    Specs are changed in place (``t['share']`` says where each shared piece comes from;
+    ``t['circ']`` / ``t['op']`` / ... are replaced by the donor's) and must then be built with
+    ``build_tasks``.  Every operator stays no wider than its circuit.  Returns the mode."""
+    mode = mode or rng.choice(ALIAS_MODES)
+    n = len(specs)
+    if n < 2:
+        return "none"
+    touched = set()
+    mg = max(1, n // 3)
+
+    def share_circ():
+        for g in _groups(rng, range(n), mg):
+            donor = max(g, key=lambda i: (specs[i]["circ"]["n"], -i))
+            for i in g:
+                if i != donor:
+                    specs[i]["circ"] = specs[donor]["circ"]
+                    specs[i].setdefault("share", {})["circ"] = donor
+            touched.update(g)
+
+    def share_op():
+        for g in _groups(rng, range(n), mg):
+            const = specs[g[0]]["kind"] == "constant"
+            g = [i for i in g if (specs[i]["kind"] == "constant") == const]
+            if len(g) < 2:
+                continue
+            donor = min(g, key=lambda i: (op_width(specs[i]["op"]), i))
+            for i in g:
+                if i != donor:
+                    specs[i]["op"] = specs[donor]["op"]
+                    specs[i].setdefault("share", {})["op"] = donor
+            touched.update(g)
+
+    def share_task(key):
+        for g in _groups(rng, [i for i in range(n) if i not in touched], mg):
+            donor = g[0]
+            for i in g[1:]:
+                for f in ("kind", "op", "circ", "shots"):
+                    specs[i][f] = specs[donor][f]
+                specs[i]["share"] = {key: donor}
+            touched.update(g)
+
+    if mode in ("circ", "mixed"):
+        share_circ()
+    if mode in ("op", "mixed"):
+        share_op()
+    if mode == "mixed":
+        share_task(rng.choice(["task", "copy"]))
+    elif mode in ("task", "copy"):
+        share_task(mode)
+    return mode
+
+
+def build_tasks(specs, symbols=None):
+    """library tasks for a spec list, honouring the sharing that ``alias_specs`` wrote down"""
+    from orquestra.quantum.api.estimation import EstimationTask
+
+    n = len(specs)
+    shares = [t.get("share") or {} for t in specs]
+    circs = [None if ("circ" in sh or "task" in sh) else build_circ(t["circ"], symbols) for t, sh in zip(specs, shares)]
+    ops = [None if ("op" in sh or "task" in sh) else build_op(t["op"]) for t, sh in zip(specs, shares)]
+    tasks = [None] * n
+    for i, (t, sh) in enumerate(zip(specs, shares)):
+        if "task" not in sh:
+            tasks[i] = EstimationTask(ops[sh.get("op", i)], circs[sh.get("circ", i)], t["shots"])
+    for i, sh in enumerate(shares):
+        if "task" in sh:
+            tasks[i] = tasks[sh["task"]]
+    return tasks
 
 
 # ------------------------------------------------------------------ a recording runner (protocol only)
